@@ -86,6 +86,26 @@ theorem colr_to_svg_preserves {α} (E : PixAlg α) (L : PixLaws E) (V : Aff) (hV
   have := toSvg_correct E L V hV p Aff.id id_invertible hwf x
   rwa [inv_id_app] at this
 
+/-- **C13/C16 (radial gradients under a general affine)**: what `PaintRadialGradient.apply_transform` and
+`_apply_gradient_ot_paint` do — split the affine `t` into a similarity `u` (applied to the circles) and a residual `r`
+(kept as a wrapping transform / `gradientTransform`), with `compose_ltr((u, r)) = t` as `decomposeUniform_exact` provides —
+preserves the gradient: the circles mapped by `u`, looked at through `r`, have at every point exactly the colour-line
+solutions the original circles have through `t`. -/
+theorem radial_applyTransform_sound (g : RadGrad) (t u r : Aff) (hcomp : Aff.composeLtr [u, r] = t)
+    (hb : u.b = 0) (hc : u.c = 0) (hd : u.d = u.a ∨ u.d = -u.a) (hs : 0 < u.a)
+    (hu : Invertible u) (hr : Invertible r) (ht : Invertible t) (x : Pt) (τ : Q) :
+    (g.applyUniform u).sol ((r.inverseEps eps).app x) τ ↔ g.sol ((t.inverseEps eps).app x) τ := by
+  rw [Aff.composeLtr2] at hcomp
+  subst hcomp
+  rw [inv_mul_app hr hu ht]
+  have := C16.radial_similarity u hb hc hd hs g ((u.inverseEps eps).app ((r.inverseEps eps).app x)) τ
+  rwa [app_inv hu] at this
+
+/-- non-vacuity: a concrete similarity + shear residual meets the hypotheses -/
+example : (let u : Aff := ⟨2, 0, 0, -2, 5, 7⟩; let r : Aff := ⟨1, 0, 1/2, 1, 0, 0⟩
+    u.b = 0 ∧ u.c = 0 ∧ (u.d = u.a ∨ u.d = -u.a) ∧ 0 < u.a ∧ Invertible u ∧ Invertible r ∧ Invertible (Aff.composeLtr [u, r])) := by
+  norm_num [C06.Invertible, Aff.det, Aff.mul, Aff.id, Aff.composeLtr, qabs, eps, FLOAT_EPSILON, mkQ_eq]
+
 /-- a pixel algebra satisfying the laws exists (max-blending of naturals), so the theorem is not vacuous … -/
 def maxAlg : PixAlg Nat :=
   { clear := 0, over := max, fade := fun _ x => x, inside := fun o p => decide (p.x = (o : Q)),
